@@ -1,6 +1,8 @@
 """C09 part a (builder b-wire1): primitive and records layers — correspondence of coq/Wire/* with the Go code
 (scripts of put/get calls through encode()/realDecoder, CRC, later record batches / message sets) and the direct
-round-trip / sizing monitor."""
+round-trip / sizing monitor.  The realDecoder getters' decisions are also regenerated from the source (decgen group C10,
+tied to coq/Wire/Prim.v by coq/Wire/TieProofs.v)."""
+from decgen_tie import run_decgen
 
 
 def run_part(c):
@@ -21,6 +23,7 @@ def run_part(c):
     c.trust("Coq 8.16.1 kernel + vm_compute (evaluation of the model on the harness cases)")
     c.assume("64-bit platform (Go int = int64); slices handed to realDecoder have capacity = length")
     c.assume("collections shorter than 2^31 (the prepEncoder's math.MaxInt32 checks are outside the model)")
+    run_decgen(c, "C10")   # regenerated getter decisions (go/decgen) vs the proved golden coq/Gen/DecC10.v
     b = c.go_build("c09prim")
     if not b:
         return
